@@ -78,6 +78,46 @@ func runC14Extra(tier string, seed uint64, out string) {
 			fail("once-in-args", sql, fmt.Sprintf("%d calls saw %d different ONCE values (want %d calls, 1 value)", calls, len(toks), len(rows)))
 		}
 	}
+	// a derived table whose LIMIT / OFFSET removes every row has still started one ASYNC / SPINASYNC call per source row:
+	// all of them have completed when Exec returns, and a failing ASYNC call fails the query
+	{
+		var started, completed int64
+		genql.RegisterFunction("c14slow", func(_ *genql.Query, _ genql.Map, _ *genql.FunctionOptions, args []any) (any, error) {
+			atomic.AddInt64(&started, 1)
+			time.Sleep(time.Duration(3+r.Intn(4)) * time.Millisecond)
+			atomic.AddInt64(&completed, 1)
+			if len(args) > 1 {
+				return nil, fmt.Errorf("c14slow: asked to fail")
+			}
+			return args[0], nil
+		})
+		for _, win := range []string{"LIMIT 0", "LIMIT 10, 2", "LIMIT 2 OFFSET 6", "LIMIT 3"} {
+			for _, qual := range []string{"ASYNC", "SPINASYNC"} {
+				sql := "SELECT * FROM (SELECT " + qual + ".c14slow(id) AS v FROM t " + win + ") AS d"
+				if qual == "SPINASYNC" {
+					sql = "SELECT * FROM (SELECT id, " + qual + ".c14slow(id) FROM t " + win + ") AS d"
+				}
+				atomic.StoreInt64(&started, 0)
+				atomic.StoreInt64(&completed, 0)
+				res := runEngine(deepCopy(doc).(map[string]any), sql)
+				st, co := atomic.LoadInt64(&started), atomic.LoadInt64(&completed)
+				checks++
+				if res.Class != "ok" {
+					fail("derived-window", sql, "query failed: "+res.Err)
+				} else if st != co || st != int64(len(rows)) {
+					fail("derived-window", sql, fmt.Sprintf("when Exec returned %d calls had started and %d had completed (want %d and %d)", st, co, len(rows), len(rows)))
+				}
+				time.Sleep(12 * time.Millisecond)
+			}
+			sql := "SELECT * FROM (SELECT ASYNC.c14slow(id, 1) AS v FROM t " + win + ") AS d"
+			res := runEngine(deepCopy(doc).(map[string]any), sql)
+			checks++
+			if res.Class == "ok" {
+				fail("derived-window", sql, "a failing ASYNC call inside the derived table did not fail the query")
+			}
+			time.Sleep(12 * time.Millisecond)
+		}
+	}
 	// late registration of immediate functions, after queries (with function calls) have run
 	for _, name := range []string{"c14LateImm", "c14lateimm2", "C14LATEIMM3", "c14_Late_Imm4"} {
 		var invoked int64
